@@ -2300,6 +2300,12 @@ func (s *BgpServer) StopBgp(ctx context.Context, r *api.StopBgpRequest) error {
 		for _, l := range s.listeners {
 			l.Close()
 		}
+		// the MRT dumpers (a goroutine, a watcher and its queue each) belong to the
+		// instance that is going away
+		for name, w := range s.mrtManager.writer {
+			w.Stop()
+			delete(s.mrtManager.writer, name)
+		}
 		s.bgpConfig.Global = oc.Global{}
 		return nil
 	}, false)
